@@ -67,6 +67,93 @@ fn decode(hex: &str) -> String {
     }
 }
 
+/// A reader that fragments reads / injects Interrupted according to a list of events keyed by stream position.
+struct SchedReader {
+    data: Vec<u8>,
+    pos: u64,
+    calls: u64,
+    events: Vec<(char, u64, usize)>, // ('i', call index, _) | ('s', call index, n)
+}
+
+impl std::io::Read for SchedReader {
+    fn read(&mut self, buf: &mut [u8]) -> std::io::Result<usize> {
+        let start = (self.pos as usize).min(self.data.len());
+        let full = buf.len().min(self.data.len() - start);
+        let call = self.calls;
+        self.calls += 1;
+        if let Some(&(k, p, n)) = self.events.first() {
+            if p == call {
+                if k == 'i' && !buf.is_empty() {
+                    self.events.remove(0);
+                    return Err(std::io::Error::from(std::io::ErrorKind::Interrupted));
+                }
+                if k == 's' && full > 1 {
+                    self.events.remove(0);
+                    let n = n.min(full);
+                    buf[..n].copy_from_slice(&self.data[start..start + n]);
+                    self.pos += n as u64;
+                    return Ok(n);
+                }
+            }
+        }
+        buf[..full].copy_from_slice(&self.data[start..start + full]);
+        self.pos += full as u64;
+        Ok(full)
+    }
+}
+
+impl std::io::Seek for SchedReader {
+    fn seek(&mut self, pos: std::io::SeekFrom) -> std::io::Result<u64> {
+        let new = match pos {
+            std::io::SeekFrom::Start(n) => n as i128,
+            std::io::SeekFrom::End(o) => self.data.len() as i128 + o as i128,
+            std::io::SeekFrom::Current(o) => self.pos as i128 + o as i128,
+        };
+        if new < 0 {
+            return Err(std::io::Error::from(std::io::ErrorKind::InvalidInput));
+        }
+        self.pos = new as u64;
+        Ok(self.pos)
+    }
+}
+
+fn sched(rest: &str) -> String {
+    let mut it = rest.split_whitespace();
+    let hex = it.next().unwrap_or("");
+    let ev = it.next().unwrap_or("-");
+    let bytes = unhex(hex);
+    let mut events = vec![];
+    if ev != "-" {
+        for e in ev.split(',') {
+            let k = e.chars().next().unwrap();
+            let body = &e[1..];
+            if k == 'i' {
+                events.push(('i', body.parse::<u64>().unwrap(), 0usize));
+            } else {
+                let (p, n) = body.split_once(':').unwrap();
+                events.push(('s', p.parse::<u64>().unwrap(), n.parse::<usize>().unwrap()));
+            }
+        }
+    }
+    let b2 = bytes.clone();
+    let r = panic::catch_unwind(move || {
+        let a = Frame::from_bytes(&b2).map(|f| format!("{f:?}")).map_err(|e| format!("{e:?}"));
+        let rd = SchedReader { data: b2.clone(), pos: 0, calls: 0, events };
+        let b = Frame::from_reader(rd).map(|f| format!("{f:?}")).map_err(|e| format!("{e:?}"));
+        (a, b)
+    });
+    match r {
+        Ok((a, b)) => format!(
+            "{{\"hex\":\"{}\",\"differs\":{},\"from_bytes\":\"{}\",\"from_reader\":\"{}\"}}",
+            hex,
+            a != b,
+            esc(&format!("{a:?}")),
+            esc(&format!("{b:?}"))
+        ),
+        Err(e) => format!("{{\"hex\":\"{}\",\"differs\":true,\"panic\":\"{}\"}}", hex, esc(&panic_msg(e))),
+    }
+}
+
 fn main() {
     panic::set_hook(Box::new(|_| {}));
     let stdin = std::io::stdin();
@@ -84,6 +171,7 @@ fn main() {
         };
         let resp = match cmd {
             "decode" => decode(rest),
+            "sched" => sched(rest),
             _ => format!("{{\"error\":\"unknown command {}\"}}", esc(cmd)),
         };
         writeln!(out, "{resp}").unwrap();
